@@ -23,16 +23,21 @@ func ConcatArray(arr *SexpArray, rest []Sexp) (Sexp, error) {
 	if arr == nil {
 		return SexpNull, fmt.Errorf("ConcatArray called with nil arr")
 	}
-	var res SexpArray
-	res.Val = arr.Val
+	// check first, then build the result in storage of its own:
+	// appending to arr.Val wrote into the spare capacity of the first
+	// argument's backing array - which arrays made from it by append
+	// share - and did so before a later argument was found not to be
+	// an array at all.
 	for i, x := range rest {
-		switch t := x.(type) {
-		case *SexpArray:
-			res.Val = append(res.Val, t.Val...)
-		default:
-			return &res, fmt.Errorf("ConcatArray error: %d-th argument "+
+		if _, isArr := x.(*SexpArray); !isArr {
+			return SexpNull, fmt.Errorf("ConcatArray error: %d-th argument "+
 				"(0-based) is not an array", i)
 		}
+	}
+	var res SexpArray
+	res.Val = append([]Sexp(nil), arr.Val...)
+	for _, x := range rest {
+		res.Val = append(res.Val, x.(*SexpArray).Val...)
 	}
 	return &res, nil
 }
